@@ -82,6 +82,8 @@ TOY_INT = {  # name: (p, q, g)
     "i47": (47, 23, 4), "i59": (59, 29, 4), "i71": (71, 7, 30),
     "i263": (263, 131, 4), "i269": (269, 67, 16), "i1019": (1019, 509, 4),
     "i32771": (32771, 113, 30834),
+    "i67": (67, 11, 64),        # same q and element size as i23, another p
+    "i787": (787, 131, 64),     # same q and element size as i263 (g = 2^6: order 131)
 }
 
 
@@ -313,22 +315,38 @@ def _entlog():
     return _tls.ent
 
 
+class EntropyExhausted(Exception):
+    """raised by a scripted entropy function that is asked for far more than any correct sampler needs"""
+
+
 class Entropy:
     """entropy_f handed to a session: serves a scripted byte stream (or random
-    bytes from a seeded generator) and logs every request"""
+    bytes from a seeded generator) and logs every request.  A script that runs
+    out is padded with 0x00 (which every correct sampler accepts at once); a
+    caller that still keeps asking (a sampler that never accepts) gets an
+    exception after a bounded number of extra requests instead of looping
+    forever - the call then fails and the specification reports it."""
+    EXTRA = 40
 
     def __init__(self, script=None, rng=None):
         self.script = script
         self.pos = 0
         self.rng = rng
+        self.extra = 0
 
     def __call__(self, n):
         if self.script is not None:
             got = self.script[self.pos:self.pos + n]
             self.pos += n
             if len(got) < n:      # script exhausted: pad with 0x00 (always accepted)
+                self.extra += 1
+                if self.extra > self.EXTRA:
+                    raise EntropyExhausted("entropy function called %d times after its script ended" % self.extra)
                 got = got + bytes(n - len(got))
         else:
+            self.extra += 1
+            if self.extra > 400:
+                raise EntropyExhausted("entropy function called %d times by one instance" % self.extra)
             got = bytes(self.rng.getrandbits(8) for _ in range(n))
         _entlog().append({"req": n, "got": hx(got)})
         return got
@@ -387,7 +405,7 @@ class Trace:
         del _entlog()[:]
         o = self.objs[inst]
         if script is not None and isinstance(o.entropy_f, Entropy):
-            o.entropy_f.script, o.entropy_f.pos = script, 0
+            o.entropy_f.script, o.entropy_f.pos, o.entropy_f.extra = script, 0, 0
         try:
             m = o.start()
             out = {"t": "msg", "v": hx(m)}
